@@ -245,12 +245,22 @@ func (s *sut) apply(f []string) (out string) {
 		if len(f) != 3 {
 			return "bad-op"
 		}
-		return s.inboundListener(wire.Dec(f[1]), parseLabels(f[2]), nil)
-	case "ils":
-		if len(f) != 4 {
+		return s.inboundListener(wire.Dec(f[1]), parseLabels(f[2]), nil, false, false)
+	case "cl":
+		if len(f) != 5 {
 			return "bad-op"
 		}
-		return s.inboundListener(wire.Dec(f[1]), parseLabels(f[2]), parseIngress(f[3]))
+		return s.clientE2E(wire.Dec(f[1]), parseLabels(f[2]), wire.Dec(f[3]), f[4])
+	case "ilh":
+		if len(f) != 3 {
+			return "bad-op"
+		}
+		return s.inboundListener(wire.Dec(f[1]), parseLabels(f[2]), nil, true, false)
+	case "ils":
+		if len(f) != 5 {
+			return "bad-op"
+		}
+		return s.inboundListener(wire.Dec(f[1]), parseLabels(f[2]), parseIngress(f[3]), false, f[4] == "1")
 	case "aq":
 		if len(f) != 4 {
 			return "bad-op"
